@@ -575,6 +575,20 @@ pub fn kv() -> OptionParser<(bool, Vec<bool>)> {
     construct!(p, d).to_options()
 }
 
+/// top-level choice whose FIRST branch (repeated positional) can swallow the name of the command in the second
+pub fn cr() -> OptionParser<Alt8> {
+    let ws = positional::<u32>("W").many();
+    let words = construct!(Alt8::Words(ws));
+    let seven = c8_seven().command("7");
+    construct!([words, seven]).to_options()
+}
+
+/// help text with a fenced code block (the splitter treats it differently with `docgen`)
+pub fn fc() -> OptionParser<bool> {
+    let a = short('a').long("alpha").help("first line\n\n```\ncode  one\ncode  two\n```\nlast line").switch();
+    construct!(a).to_options()
+}
+
 /// switch declared before a repeated argument (the switch's consumption precedes the loop)
 pub fn g4() -> OptionParser<(bool, Vec<u32>, u32)> {
     let a = short('a').long("alpha").switch();
